@@ -73,8 +73,8 @@ func splitProject(text string, cuts []cut, finalNL bool, crlfPieces bool, dirs .
 	name := path
 	// render file content for region [s,e) excluding directly nested cuts (replaced by INCLUDE lines)
 	type piece struct {
-		file   string
-		segs   [][3]int // [origStart, origEnd, offsetInFile]
+		file string
+		segs [][3]int // [origStart, origEnd, offsetInFile]
 	}
 	var pieces []piece
 	var render func(s, e int, self int) string
